@@ -1,26 +1,34 @@
 """TEMPORARY fragment (dev loop of the ratio_to_float_k Kani group); merged into the convert fragment by the parent."""
 
 _D = 'den = any of 1..=15'
+_STUBS = ('dashu-int operations stubbed by their inline-operand arm (UBig::div_rem(&UBig), UBig << usize, &UBig << usize, '
+          '&IBig << usize; heap arms = panic): trusted to equal the real arms')
 KANI = {
     'ratio_to_float_k': {
         'package': 'dashu-ratio', 'target': 'rational/src/convert.rs', 'file': 'ratio_to_float_k.rs',
+        'note': 'Repr::to_f32/to_f64 harnesses: ' + _STUBS + '. Known-finding region (double rounding) assumed away in '
+                'the main harnesses, see vk_rf_tie_region. Out of reach (operands > 128 bits): subnormal results, f64 '
+                'overflow, the f64 underflow cut-off `shift < -1074 - 53` (3 / 2^1076 -> 0.0, native only).',
         'harnesses': {
             'vk_ratio_to_float_k_f32_critical': {'kind': 'bounded', 'bound': _D + ', num = 2^t + hi*2^(t-3) + lo, t = bitlen(den)+23+(0|1), hi < 8, lo < 32'},
-            'vk_ratio_to_float_k_f32_small_num': {'kind': 'bounded', 'bound': _D + ', num = any of -255..=255'},
-            'vk_ratio_to_float_k_f32_big_num': {'kind': 'bounded', 'bound': _D + ', num = 2^62 + a*2^59 + b*2^37 + c, a, b, c < 8'},
+            'vk_ratio_to_float_k_f32_small_num': {'kind': 'bounded', 'tier': 'thorough', 'bound': _D + ', num = any of -255..=255'},
+            'vk_ratio_to_float_k_f32_big_num': {'kind': 'bounded', 'tier': 'thorough', 'bound': _D + ', num = 2^62 + a*2^59 + b*2^37 + c, a, b, c < 8'},
             'vk_ratio_to_float_k_f32_overflow': {'kind': 'bounded', 'bound': 'den = 1, num = +-(((2^25-1-a) * 64 + lo) * 2^97), a < 4, lo < 64'},
             'vk_ratio_to_float_k_f64_critical': {'kind': 'bounded', 'bound': _D + ', num = 2^t + hi*2^(t-3) + lo, t = bitlen(den)+52+(0|1), hi < 8, lo < 32'},
-            'vk_ratio_to_float_k_f64_small_num': {'kind': 'bounded', 'bound': _D + ', num = any of -255..=255'},
-            'vk_ratio_to_float_k_f64_big_num': {'kind': 'bounded', 'bound': _D + ', num = 2^63 + a*2^60 + lo, a < 8, lo < 4096'},
-            'vk_ratio_to_float_k_finding_f32_double_rounding': {'kind': 'finding', 'bound': 'as f32_critical, inside the region'},
-            'vk_ratio_to_float_k_finding_f64_double_rounding': {'kind': 'finding', 'bound': 'as f64_critical, inside the region'},
-            'vk_ratio_to_float_k_to_ubig': {'kind': 'bounded', 'bound': '|num| < 2^15, den = any of 1..=15'},
-            'vk_ratio_to_float_k_to_ibig': {'kind': 'bounded', 'bound': '|num| < 2^15, den = any of 1..=15'},
-            'vk_ratio_to_float_k_finding_to_ubig': {'kind': 'finding', 'bound': 'as to_ubig, inside the region'},
+            'vk_ratio_to_float_k_f64_small_num': {'kind': 'bounded', 'tier': 'thorough', 'bound': _D + ', num = any of -255..=255'},
+            'vk_ratio_to_float_k_f64_big_num': {'kind': 'bounded', 'tier': 'thorough', 'bound': _D + ', num = 2^63 + a*2^60 + lo, a < 8, lo < 4096'},
+            'vk_ratio_to_float_k_finding_f32_double_rounding': {'kind': 'finding', 'bound': 'as f32_critical, inside the region',
+                'note': 'double rounding in Repr::to_f32: 117440522/7 = 16777217.43 -> Inexact(16777216.0, Negative), correct 16777218.0'},
+            'vk_ratio_to_float_k_finding_f64_double_rounding': {'kind': 'finding', 'bound': 'as f64_critical, inside the region',
+                'note': 'double rounding in Repr::to_f64: ((2^53+1)*7+3)/7 -> Inexact(2^53, Negative), correct 2^53+2'},
+            'vk_ratio_to_float_k_to_ubig': {'kind': 'bounded', 'bound': '|num| < 2^15, den = any of 1..=15 (non-integer value if den > 1)'},
+            'vk_ratio_to_float_k_to_ibig': {'kind': 'bounded', 'bound': '|num| < 2^15, den = any of 1..=15 (non-integer value if den > 1)'},
             'vk_ratio_to_float_k_try_f32': {'kind': 'bounded', 'bound': 'num = any i32, den = 2^k, k in {0, 1, 126, 149, 150, 181}'},
-            'vk_ratio_to_float_k_try_f64': {'kind': 'bounded', 'bound': 'num = any i64, den = 2^k, k in {0, 1, 64, 1074, 1075}'},
-            'vk_ratio_to_float_k_finding_try_f32_wide_num': {'kind': 'finding', 'bound': 'num = any i64 outside i32, den = 1'},
-            'vk_ratio_to_float_k_finding_try_f64_wide_num': {'kind': 'finding', 'bound': '2^63 <= |num| < 2^64, den = 1'},
+            'vk_ratio_to_float_k_try_f64': {'kind': 'bounded', 'bound': 'num = any i64, den = 2^k, k in {0, 1, 64}'},
+            'vk_ratio_to_float_k_finding_try_f32_wide_num': {'kind': 'finding', 'bound': 'num = any i64 outside i32, den = 1',
+                'note': 'TryFrom<RBig> for f32 unwraps numerator -> i32: f32::try_from(RBig 2^31) panics'},
+            'vk_ratio_to_float_k_finding_try_f64_wide_num': {'kind': 'finding', 'bound': '2^63 <= |num| < 2^64, den = 1',
+                'note': 'TryFrom<RBig> for f64 unwraps numerator -> i64: f64::try_from(RBig 2^63) panics'},
         },
     },
 }
